@@ -177,6 +177,8 @@ inductive CliEdit where
   | delOutputs (ks : List Nat)
   | addBond (e0 e1 : Bond)
   | delBonds (is : List Nat)
+  | addProcessor (n m : Nat)     -- `-add-processor <domain>`: a processor of that domain's shape
+  | attach (e0 e1 : Bond)        -- `-attach-benchmark-core[-v2] a,b`
 deriving Repr
 
 /-- what one invocation of the CLI does, as a sequence of API edits -/
@@ -187,6 +189,8 @@ def expandCli (t : Topo) : CliEdit → List Edit
   | .delOutputs ks => (cliIds t.outputs ks).map .delOutput
   | .addBond a b => [.addBond a b]
   | .delBonds is => (is.filter (· < t.links.length)).map .delBond
+  | .addProcessor n m => [.addProcessor n m]
+  | .attach a b => [.attach a b]
 
 def applyCli (t : Topo) (e : CliEdit) : Topo := run t (expandCli t e)
 
